@@ -41,6 +41,37 @@ type logRec struct {
 
 var recTypeName = []string{"INVALID", "INSERT", "MARKDELETE", "APPLYDELETE", "ROLLBACKDELETE", "UPDATE", "BEGIN", "COMMIT", "ABORT", "NEWPAGE", "DEALLOC", "REUSE", "GRACEFUL"}
 
+// ioHook turns recorded I/O calls into trace events.  A log write lists its records as
+// [lsn, txn, type, size, prevLSN, new page id (NewTablePage records, else -1)]; a page write carries the page LSN
+// and, for pages known to be heap pages (a NewTablePage record named them), the next-page link of the image.
+func ioHook(tw *trace.Writer, heap map[int]bool) func(idx int, op *iorec.Op) {
+	return func(idx int, op *iorec.Op) {
+		switch op.Kind {
+		case "L":
+			recs, ok := parseLog(op.Data)
+			rj := [][]int{}
+			for _, r := range recs {
+				np := -1
+				if r.Typ == 9 {
+					heap[r.B] = true
+					np = r.B
+				}
+				rj = append(rj, []int{r.Lsn, r.Txn, r.Typ, r.Size, r.Prev, np})
+			}
+			tw.Emit(map[string]interface{}{"ev": "WLog", "io": idx, "recs": rj, "parsed": ok, "bytes": len(op.Data)})
+		case "P":
+			lsn := int(int32(binary.LittleEndian.Uint32(op.Data[4:8])))
+			next := -1
+			if heap[int(op.Page)] {
+				next = int(int32(binary.LittleEndian.Uint32(op.Data[12:16])))
+			}
+			tw.Emit(map[string]interface{}{"ev": "WPage", "io": idx, "p": int(op.Page), "lsn": lsn, "heap": heap[int(op.Page)], "next": next})
+		case "GC":
+			tw.Emit(map[string]interface{}{"ev": "GC", "io": idx})
+		}
+	}
+}
+
 // parseLog splits one WriteLog payload into records with a strict parser of its own.
 // ok=false when the payload is not a sequence of complete records.
 func parseLog(b []byte) (recs []logRec, ok bool) {
@@ -102,25 +133,7 @@ func crashRun(args []string) error {
 	heap := map[int]bool{}
 	samehada.VerifWrapDisk = func(d disk.DiskManager, dbName string) disk.DiskManager {
 		rec = iorec.NewRec(d)
-		rec.Hook = func(idx int, op *iorec.Op) {
-			switch op.Kind {
-			case "L":
-				recs, ok := parseLog(op.Data)
-				rj := [][]int{}
-				for _, r := range recs {
-					rj = append(rj, []int{r.Lsn, r.Txn, r.Typ, r.Size, r.Prev})
-					if r.Typ == 9 {
-						heap[r.B] = true
-					}
-				}
-				tw.Emit(map[string]interface{}{"ev": "WLog", "io": idx, "recs": rj, "parsed": ok, "bytes": len(op.Data)})
-			case "P":
-				lsn := int(int32(binary.LittleEndian.Uint32(op.Data[4:8])))
-				tw.Emit(map[string]interface{}{"ev": "WPage", "io": idx, "p": int(op.Page), "lsn": lsn, "heap": heap[int(op.Page)]})
-			case "GC":
-				tw.Emit(map[string]interface{}{"ev": "GC", "io": idx})
-			}
-		}
+		rec.Hook = ioHook(tw, heap)
 		return rec
 	}
 	tw.Emit(map[string]interface{}{"ev": "Reset", "memKB": memKB})
@@ -180,9 +193,13 @@ func crashRun(args []string) error {
 		return ks
 	}
 	// one statement; returns false when the transaction was aborted by it
+	forceKind := -1
 	stmt := func(t *crashTxn) bool {
 		ks := keysSorted()
 		kind := rng.Intn(10)
+		if forceKind >= 0 {
+			kind = forceKind
+		}
 		if len(ks) == 0 {
 			kind = 0
 		}
@@ -194,7 +211,7 @@ func crashRun(args []string) error {
 			nextKey++
 			version++
 			pay := "s"
-			if rng.Intn(3) == 0 {
+			if rng.Intn(3) == 0 || (os.Getenv("VERIF_CRASH_STEPS") != "" && rng.Intn(2) == 0) {
 				pay = longPay[:300+rng.Intn(600)]
 			}
 			sql = fmt.Sprintf("INSERT INTO %s(k, v, p) VALUES (%d, %d, '%s');", crashTable, k, version, pay)
@@ -235,15 +252,24 @@ func crashRun(args []string) error {
 		}
 	}
 	steps := 14 + rng.Intn(14)
+	if v, err := strconv.Atoi(os.Getenv("VERIF_CRASH_STEPS")); err == nil && v > 0 {
+		steps = v // long I/O-order workloads (no crash probes): heaps several times the pool size
+	}
 	for i := 0; i < steps; i++ {
 		c := rng.Intn(10)
 		switch {
 		case c < 6: // one transaction start to end
 			t := begin()
 			ok := true
-			for j := 0; j < 1+rng.Intn(3) && ok; j++ {
+			n := 1 + rng.Intn(3)
+			if rng.Intn(5) == 0 { // a transaction that removes (or relocates) several rows: several APPLYDELETE records at commit
+				forceKind = 8 - 2*rng.Intn(2)
+				n = 2 + rng.Intn(3)
+			}
+			for j := 0; j < n && ok; j++ {
 				ok = stmt(t)
 			}
+			forceKind = -1
 			if ok {
 				if rng.Intn(5) == 0 {
 					abort(t, "explicit")
@@ -459,6 +485,15 @@ func crashProbe(args []string) error {
 			tv := []interface{}{}
 			data := ops[k+1].Data
 			cuts := []int{1, 7, 19, 20, 21, len(data) / 2, len(data) - 1}
+			// and every record boundary of the write (the crash falls between two records, e.g. right before the
+			// COMMIT record), plus one byte into the following record
+			if recs, _ := parseLog(data); len(recs) > 1 {
+				off := 0
+				for _, r := range recs[:len(recs)-1] {
+					off += r.Size
+					cuts = append(cuts, off, off+1)
+				}
+			}
 			seen := map[int]bool{}
 			for _, c := range cuts {
 				if c <= 0 || c >= len(data) || seen[c] {
